@@ -118,6 +118,12 @@ func c05Op(code int) stackage.Operator {
 		return userOp{"~=", "ctx"}
 	case 102:
 		return userOp{"=~", "ctx"}
+	case 103: // operator types Go cannot compare with ==: a slice, the same with another text, a map
+		return sliceOp{"=~", "ctx"}
+	case 105:
+		return sliceOp{"!~", "ctx"}
+	case 104:
+		return mapOp{"k": "v"}
 	}
 	return stackage.ComparisonOperator(code)
 }
@@ -182,6 +188,12 @@ func (n eqNode) build() any {
 			return []any{map[string]any{n.Ss[0]: []any{&eqD5{v[0], eqD6{v[1], v[2], n.Ss[0]}, v[3]}, [2]any{v[4], []int{v[5]}}}}}
 		}
 		panic(n.Kind)
+	case "anymap": // a map[string]any leaf: a key with an explicit nil value, one with a number, one with a text
+		m := map[string]any{n.Ss[0]: nil, n.Ss[1]: n.Vs[0], "fixed": n.Ss[2]}
+		if n.Cap == 1 {
+			m[n.Ss[0]] = "no-longer-nil"
+		}
+		return m
 	case "anymix": // a []any / [2]any leaf whose entries are not all bare primitives
 		v0, v1 := n.Vs[0], n.Vs[1]
 		switch n.Kind {
@@ -387,6 +399,8 @@ func (n eqNode) String() string {
 		return fmt.Sprintf("%s%v%q", n.T, n.Vs, n.Ss)
 	case "anymix":
 		return fmt.Sprintf("anymix-%s%d%v%q", n.Kind, n.Cap, n.Vs, n.Ss)
+	case "anymap":
+		return fmt.Sprintf("anymap%d%v%q", n.Cap, n.Vs, n.Ss)
 	case "deep":
 		return fmt.Sprintf("deep-%s%v%q", n.Kind, n.Vs, n.Ss)
 	case "typed":
@@ -498,6 +512,18 @@ func (n eqNode) mutants() []eqNode {
 				add(m2, "slice one element shorter")
 			}
 		}
+	case "anymap":
+		for i := 0; i < 3; i++ {
+			m := cloneNode(n)
+			m.Ss[i] += "'"
+			add(m, []string{"anymap: the key of the nil entry renamed (same size)", "anymap: the key of the number renamed", "anymap: a text value changed"}[i])
+		}
+		m := cloneNode(n)
+		m.Vs[0] += 3
+		add(m, "anymap: a number value changed")
+		m2 := cloneNode(n)
+		m2.Cap = 1
+		add(m2, "anymap: the nil value replaced by a text")
 	case "deep":
 		used := map[string]int{"struct": 12, "struct-by-value": 12, "slice": 6, "map": 4, "mixed": 6}[n.Kind]
 		for i := 0; i < used; i++ {
@@ -654,6 +680,11 @@ func (n eqNode) mutants() []eqNode {
 			m3.Op = 102
 		}
 		add(m3, "Condition operator replaced by a (different) user-defined operator")
+		if n.Op == 103 {
+			m4 := cloneNode(n)
+			m4.Op = 105
+			add(m4, "Condition operator (a slice type) replaced by another value of the same type")
+		}
 		for _, km := range n.Kids[0].mutants() {
 			m := cloneNode(n)
 			m.Kids[0] = km
@@ -727,7 +758,7 @@ func eqLeaves() []eqNode {
 		{T: "anyslice", Vs: []int{1}, Ss: []string{"a", "t"}}, {T: "anyarr", Vs: []int{1}, Ss: []string{"a"}},
 		{T: "anymix", Kind: "ptr", Vs: []int{1, 2}, Ss: []string{"a"}}, {T: "anymix", Kind: "nil", Vs: []int{1, 2}, Ss: []string{"a"}}, {T: "anymix", Kind: "slice", Vs: []int{1, 2}, Ss: []string{"a"}},
 		{T: "anymix", Kind: "map", Vs: []int{1, 2}, Ss: []string{"a"}}, {T: "anymix", Kind: "struct", Vs: []int{1, 2}, Ss: []string{"a"}}, {T: "anymix", Kind: "arr", Vs: []int{1, 2}, Ss: []string{"a"}},
-		{T: "anymix", Kind: "nested", Vs: []int{1, 2}, Ss: []string{"a"}},
+		{T: "anymix", Kind: "nested", Vs: []int{1, 2}, Ss: []string{"a"}}, {T: "anymap", Vs: []int{7}, Ss: []string{"mail", "cn", "text"}},
 		{T: "deep", Kind: "struct", Vs: []int{1, 2, 3, 4, 5, 6, 7, 8, 9, 10, 11, 12}, Ss: []string{"z"}}, {T: "deep", Kind: "slice", Vs: []int{1, 2, 3, 4, 5, 6}, Ss: []string{"-"}},
 		{T: "deep", Kind: "struct-by-value", Vs: []int{1, 2, 3, 4, 5, 6, 7, 8, 9, 10, 11, 12}, Ss: []string{"z"}},
 		{T: "deep", Kind: "map", Vs: []int{1, 2, 3, 4}, Ss: []string{"a"}}, {T: "deep", Kind: "mixed", Vs: []int{1, 2, 3, 4, 5, 6}, Ss: []string{"k"}},
@@ -877,7 +908,8 @@ func c05Trees(c *Ctx) []eqNode {
 	for _, l := range leaves[:7] {
 		elems = append(elems, eqNode{T: "cond", Kw: "kw", Op: 1, Kids: []eqNode{l}})
 	}
-	elems = append(elems, eqNode{T: "cond", Kw: "uk", Op: 101, Kids: []eqNode{leaves[1]}}, eqNode{T: "cond", Kw: "uk", Op: 102, Kids: []eqNode{leaves[0]}})
+	elems = append(elems, eqNode{T: "cond", Kw: "uk", Op: 101, Kids: []eqNode{leaves[1]}}, eqNode{T: "cond", Kw: "uk", Op: 102, Kids: []eqNode{leaves[0]}},
+		eqNode{T: "cond", Kw: "sk", Op: 103, Kids: []eqNode{leaves[1]}}, eqNode{T: "cond", Kw: "mk", Op: 104, Kids: []eqNode{leaves[0]}})
 	// nested stacks (depth 1) over a reduced leaf set
 	small := []eqNode{leaves[0], leaves[1], leaves[7], leaves[10]}
 	var nested []eqNode
